@@ -9,6 +9,7 @@ import MRB.Seq.Machine
 import MRB.Seq.Spec
 import MRB.Traits
 import MRB.Async
+import MRB.Vmem
 
 namespace MRB.Driver
 open MRB
@@ -57,6 +58,22 @@ def parseOp (ws : List String) : Option Op :=
 
 def natList (l : List Nat) : String := " ".intercalate (l.map toString)
 
+/-- Window geometry under the `vmem` feature: the single slice of the regenerated `next_chunk*` (vmem variant)
+for the same index and count (by `C17_slice_window_is_ring` it reaches the same ring slots under the mirror). -/
+def vmWin (len ho hl tl : Nat) : Nat × Nat × Nat × Nat :=
+  (Gen.nextChunkVm.headOff ho 0 0 len (hl + tl) 0, Gen.nextChunkVm.headLen ho 0 0 len (hl + tl) 0,
+   Gen.nextChunkVm.tailOff ho 0 0 len (hl + tl) 0, Gen.nextChunkVm.tailLen ho 0 0 len (hl + tl) 0)
+
+def renderOutVm (len : Nat) : Out → String
+  | .win ho hl _ tl vs => let (a, b, c, d) := vmWin len ho hl tl; s!"win {a} {b} {c} {d} : {" ".intercalate (vs.map toString)}"
+  | .none => "none"
+  | .ok => "ok"
+  | .num n => s!"num {n}"
+  | .item v => s!"item {v}"
+  | .err v => s!"err {v}"
+  | .vals vs => s!"vals {" ".intercalate (vs.map toString)}"
+  | .panic => "panic"
+
 def renderOut : Out → String
   | .none => "none"
   | .ok => "ok"
@@ -90,6 +107,7 @@ structure Case where
   heldW : Option Op := none
   heldC : Option Op := none
   wakes : Nat := 0
+  vm : Bool := false      -- `initvm`: the harness was built with the `vmem` feature
   deriving Inhabited
 
 def Case.ast (c : Case) : ASt := { st := c.st, heldP := c.heldP, heldW := c.heldW, heldC := c.heldC, wakes := c.wakes }
@@ -111,6 +129,11 @@ def c16Table : String :=
     let w := match t.wrap with | .plain => "plain" | .detached => "detached" | .async => "async" | .asyncDetached => "asyncdetached"
     s!"{b} {w} conc={Driver.b t.concurrent} isend={Driver.b t.itemSend} isync={Driver.b t.itemSync} send={Driver.b (Traits.isSend t)} sync={Driver.b (Traits.isSync t)}"
   ";".intercalate (Traits.allTys.map row)
+
+/-- `c17`: the verdicts of the vmem decision procedures on the regenerated tables, and the rounding function on a request. -/
+def c17Verdict : String :=
+  let v := Vmem.verdict
+  s!"placed={v.placed} mirror={v.mirror} contents={v.contents} unmap={v.unmap} destroys={v.destroys} returnsBase={v.returnsBase}"
 
 def g3Table : String :=
   let loc : Loc → String
@@ -135,9 +158,20 @@ def handle (c : Option Case) (line : String) : Option Case × String :=
       let st := St.init sl (w != 0) (h != 0) (o != 0)
       (some { st := st, sp := Sp.init len (w != 0) }, "ok " ++ renderObs st [])
     | _, _, _, _, _ => (c, "bad-init")
+  | "initvm" :: len :: hasW :: heap :: owned :: slots =>
+    match len.toNat?, hasW.toNat?, heap.toNat?, owned.toNat?, nats slots with
+    | some len, some w, some h, some o, some sl =>
+      if sl.length ≠ len ∨ len = 0 then (c, "bad-init") else
+      let st := St.init sl (w != 0) (h != 0) (o != 0)
+      (some { st := st, sp := Sp.init len (w != 0), vm := true }, "ok " ++ renderObs st [])
+    | _, _, _, _, _ => (c, "bad-init")
   | [] => (c, "")
   | ["c16"] => (c, c16Table)
   | ["g3"] => (c, g3Table)
+  | ["c17"] => (c, c17Verdict)
+  | ["c17round", ps, req] => (c, match ps.toNat?, req.toNat? with
+      | some ps, some req => if ps = 0 then "bad-op" else toString (Gen.pageSizeMul 0 0 0 ps req 0)
+      | _, _ => "bad-op")
   | "poll" :: rest =>
     match c, parseOp rest with
     | some c, some op =>
@@ -174,7 +208,7 @@ def handle (c : Option Case) (line : String) : Option Case × String :=
       let (sp1, ao) := c.sp.step op
       let nd := st1.drops.drop c.st.drops.length
       let specNote := if o.abs op.producerGrant = ao then "" else s!" SPECDIFF spec={renderAOut ao}"
-      (some { c with st := st1, sp := sp1 }, renderOut o ++ " | " ++ renderObs st1 nd ++ specNote)
+      (some { c with st := st1, sp := sp1 }, (if c.vm then renderOutVm c.st.len o else renderOut o) ++ " | " ++ renderObs st1 nd ++ specNote)
     | none, _ => (c, "no-case")
     | _, none => (c, "bad-op")
 
